@@ -607,8 +607,9 @@ func sessionChargingReservation(
 
 			ue.UnitCost[rg] = getUnitCost(ue, rg, sur)
 
-			usedQuota := uint64(totalUsedUnit * ue.UnitCost[rg])
-			requestedQuota = uint64(uint32(unitUsage.RequestedUnit.TotalVolume) * ue.UnitCost[rg])
+			// (64-bit products: units times unit cost does not fit 32 bits for large volumes)
+			usedQuota := uint64(totalUsedUnit) * uint64(ue.UnitCost[rg])
+			requestedQuota = uint64(uint32(unitUsage.RequestedUnit.TotalVolume)) * uint64(ue.UnitCost[rg])
 			ue.ReservedQuota[rg] -= int64(usedQuota)
 			NeedReserveQuota := !(ue.ReservedQuota[rg] > 0)
 			// The reservation must cover the requested quota, otherwise units would be granted on credit
